@@ -1,5 +1,6 @@
 (* Json/JsonNumber.v — the number branch of json.Minify: Number(text, 0) followed by the JSON repair of a leading "."
-   (".5" -> "0.5", "-.5" -> "-0.5") keeps the lexeme in the number grammar and denotes exactly the same rational. *)
+   (".5" -> "0.5", "-.5" -> "-0.5") keeps the lexeme in the number grammar and denotes exactly the same rational.
+   When the inserted zero would make the result longer than the input (7E-3 -> .007 -> 0.007) the input is written. *)
 From MV Require Import Base.MvBytes Num.NumModel Num.NumSpec Num.NumProofs Num.NumberLemmas Num.NumberProofs Json.JsonModel.
 
 (* ---------- the repair step in isolation ---------- *)
@@ -10,8 +11,27 @@ Definition repair (u : bytes) : bytes :=
   | _ => u
   end.
 
-Lemma num_text_repair l : starts_number l = true -> num_text false l = repair (number0 l).
-Proof. intros H. unfold num_text. rewrite H. reflexivity. Qed.
+(* the three ways num_text false ends: the input itself (fallback), number0's result untouched,
+   or the repaired result, which then fits in the input's length *)
+Lemma num_text_cases l : starts_number l = true ->
+  num_text false l = l \/
+  (num_text false l = repair (number0 l) /\ repair (number0 l) = number0 l) \/
+  (num_text false l = repair (number0 l) /\ (S (length (number0 l)) <= length l)%nat).
+Proof.
+  intros Hst. unfold num_text. rewrite Hst. cbn [negb andb]. cbv zeta.
+  generalize (number0 l). intros u.
+  destruct (Nat.ltb (length l) (S (length u))) eqn:E.
+  - clear E. destruct u as [|c r]; [right; left; split; reflexivity|].
+    destruct c as [|q|q]; try (right; left; split; reflexivity).
+    do 6 (try (destruct q as [q|q|]; try (right; left; split; reflexivity))).
+    + (* c = 45 *)
+      destruct r as [|d r']; [right; left; split; reflexivity|].
+      destruct d as [|q|q]; try (right; left; split; reflexivity).
+      do 6 (try (destruct q as [q|q|]; try (right; left; split; reflexivity))).
+      left; reflexivity.
+    + (* c = 46 *) left; reflexivity.
+  - apply Nat.ltb_ge in E. right; right. split; [reflexivity | exact E].
+Qed.
 
 (* the pattern match on byte literals, restated with boolean tests *)
 Lemma repair_eq u : repair u =
@@ -138,21 +158,42 @@ Proof.
   destruct (d =? 46) eqn:Ed; [reflexivity|]. rewrite Ec, Ec5, Ed. exact I.
 Qed.
 
+(* the repair adds at most one byte *)
+Lemma repair_length u : (length (repair u) <= S (length u))%nat.
+Proof.
+  rewrite repair_eq. destruct u as [|c r]; [cbn [length]; lia|].
+  destruct (c =? 46); [cbn [length]; lia|].
+  destruct (c =? 45); [|lia].
+  destruct r as [|d r']; [lia|].
+  destruct (d =? 46); cbn [length]; lia.
+Qed.
+
 (* a JSON number starts with a digit or '-' (never with '+' or '.'): that is what starts_number tests *)
 Theorem json_number_value : forall l p, lex_number l = Some p -> starts_number l = true -> zlen l <= 10 ^ 25 ->
   exists p', lex_number (num_text false l) = Some p' /\ val_eq (value p') (value p).
 Proof.
-  intros l p Hlex Hst Hlen. rewrite (num_text_repair l Hst).
-  destruct (number0_value l p Hlex Hlen) as (p0 & H0 & Hv0).
-  destruct (repair_value _ _ H0) as (p' & H1 & Hv1).
-  exists p'. split; [exact H1 | eapply val_eq_trans; eauto].
+  intros l p Hlex Hst Hlen.
+  assert (Hrep : exists p', lex_number (repair (number0 l)) = Some p' /\ val_eq (value p') (value p)).
+  { destruct (number0_value l p Hlex Hlen) as (p0 & H0 & Hv0).
+    destruct (repair_value _ _ H0) as (p' & H1 & Hv1).
+    exists p'. split; [exact H1 | eapply val_eq_trans; eauto]. }
+  destruct (num_text_cases l Hst) as [E | [[E _] | [E _]]]; rewrite E.
+  - exists p. split; [exact Hlex | apply val_eq_refl].
+  - exact Hrep.
+  - exact Hrep.
 Qed.
 
-(* the repaired lexeme has a digit before the dot, as RFC 8259 requires: it does not start with "." or "-." *)
+(* the written lexeme has a digit before the dot, as RFC 8259 requires: it does not start with "." or "-.".
+   The fallback writes l itself, hence the hypothesis that l has an integer part (JSON lexemes always have one). *)
 Theorem json_number_has_int_part : forall l p, lex_number l = Some p -> starts_number l = true -> zlen l <= 10 ^ 25 ->
+  match l with 46 :: _ => False | 45 :: 46 :: _ => False | _ => True end ->
   match num_text false l with 46 :: _ => False | 45 :: 46 :: _ => False | _ => True end.
 Proof.
-  intros l p _ Hst _. rewrite (num_text_repair l Hst). apply repair_has_int_part.
+  intros l p _ Hst _ Hint.
+  destruct (num_text_cases l Hst) as [E | [[E _] | [E _]]]; rewrite E.
+  - exact Hint.
+  - apply repair_has_int_part.
+  - apply repair_has_int_part.
 Qed.
 
 (* with KeepNumbers, or for anything that is not a number, the text is unchanged *)
